@@ -392,7 +392,7 @@ func TestC31_Schedules(t *testing.T) {
 		"rapid: window 0/5/20 ms, main strober with 1-14 ops (strobe, sleep with gap << window / ~window/2 / around the window / 2-4 windows, await, peek, terminate), 0-3 concurrent extra strobers, consumer draining / slow / absent; 1-6 scripts run concurrently per rapid case; "+
 			"non-trivial: at least two signals were received, at least two strobes could each have produced one, and at least one strobe was provably coalesced into a later one")
 	rec.Note("timing_bound", bound.String())
-	ev.Check(t, rec, 200, 3000, func(rt *rapid.T) {
+	ev.Check(t, rec, 150, 3000, func(rt *rapid.T) {
 		k := rapid.IntRange(1, 6).Draw(rt, "scripts")
 		scripts := make([]*Script, k)
 		for i := range scripts {
